@@ -194,6 +194,13 @@ def rule_plane(ctx: Ctx, frame_only: bool = False) -> None:
             ok = fx.equals(F.parse_text(spec)) or fx.equals(F.parse_text(spec.replace("round(", "", 1)[: -len(", 10)")] if False else spec))
             ok2 = fx.equals(F.parse_text("sqrt(0.5 * (distance_points_bev(EP[LR[0]], GP[LR[0]])**2 + distance_points_bev(EP[LR[1]], GP[LR[1]])**2))"))
         except (Unrecognised, SyntaxError) as exc:
+            if ("GP" not in a or "EP" not in a) and "transforms.transform(" in a:
+                side = "ground truth" if "GP" not in a else "estimate"
+                ctx.violate("R-FRAME", "PlaneDistanceMatching", "points-mixed-frames",
+                            f"the {side}'s plane points entering the distance are transformed coordinates (`transforms.transform(...)` inside the point expression) while the other object's stay in its own frame: "
+                            "the distance of identical boxes is no longer 0 for map-frame objects; only the RANKING may use ego-frame coordinates", fi=fi,
+                            expected="distance between own-frame footprint corners EP[...] and GP[...]", found=a[:300])
+                continue
             ctx.require(False, f"PlaneDistanceMatching: score expression not recognised ({exc}): {a[:200]}")
         ctx.check(ok or ok2, "C06-plane", "PlaneDistanceMatching", f"formula:{'ego' if base else 'tf'}",
                   f"plane distance is `{a[:260]}`; definition: sqrt(0.5 * (d_left^2 + d_right^2)) between the corresponding corners (same ranking IDX and same left/right indices for estimate and ground truth, the two nearest GT corners)",
